@@ -2,10 +2,11 @@
 # ./harness/try_seed.sh <Cxx> <dir with patch.diff demo.py> [tier]  -- apply a seeded change to /repo, confirm it (tests green, demo red),
 # run the check, undo.  /repo is restored in every case.
 set -u
+export VERIF_EVIDENCE_DIR=$(mktemp -d /var/tmp/seed_evidence.XXXXXX)   # never overwrite the committed evidence with a run on modified code
 pid=$1; d=$2; tier=${3:-quick}
 cd /repo || exit 2
 if ! git diff --quiet; then echo "repo not clean"; exit 2; fi
-restore() { git -C /repo checkout -- . ; }
+restore() { git -C /repo checkout -- . ; rm -rf "$VERIF_EVIDENCE_DIR"; }
 trap restore EXIT
 echo "== demo on the original code"
 PYTHONPATH=/repo/src timeout 600 /venv/bin/python "$d/demo.py" > /tmp/demo0.out 2>&1; echo "exit $?"
